@@ -177,7 +177,7 @@ def last_filter():
 
 def query_filter(t):
     h, e, i = t.queries
-    return '(saxf (hog %s) (ext %s) (int %s) %s)' % (' '.join(map(q, h)), ' '.join(map(q, e)), ' '.join(map(q, i)), ' '.join(t.events))
+    return '(saxf (hog %s) (ext %s) (int %s) %s%s)' % (' '.join(map(q, h)), ' '.join(map(q, e)), ' '.join(map(q, i)), 'doc ' if DOC_LEVEL[0] else '', ' '.join(t.events))
 
 def last():
     """the trace of the most recent load in this process (None if it was too large)"""
@@ -194,4 +194,4 @@ def query(t):
     """the driver query replaying the recorded calls"""
     flt = 'none' if t.flt is None else '(ids %s)' % ' '.join(q(x) for x in t.flt)
     keep = 'all' if t.keep is None else '(ids %s)' % ' '.join(q(x) for x in t.keep)
-    return '(sax %s %s %s)' % (flt, keep, ' '.join(t.events))
+    return '(sax %s %s %s%s)' % (flt, keep, 'doc ' if DOC_LEVEL[0] else '', ' '.join(t.events))
